@@ -564,6 +564,28 @@ func oracleSeq(s *kit.Summary, sofar []*hitCase, c *hitCase, o *hitOut) {
 	} else if reqErr == nil {
 		viol("req_missing", "no request reached the transport", "", "", nil)
 	}
+	// --- the redirect policy: Redirects(n) follows up to n redirects, NoFollow returns the first
+	// redirect response; only then is the exchange allowed to fail on the policy
+	if o.ft.first != nil && c.RedirSet && c.Redirects >= -1 && len(c.Hops) > 0 {
+		var want *respSpec // the response hit must obtain (nil: none)
+		what := ""
+		switch {
+		case c.Redirects == -1:
+			want, what = &c.Hops[0], "NoFollow must hand out the first redirect response"
+		case len(c.Hops) <= c.Redirects:
+			want, what = c.Final, fmt.Sprintf("a chain of %d redirects is within the limit %d: the exchange must end in the final response", len(c.Hops), c.Redirects)
+		default:
+			what = fmt.Sprintf("a chain of %d redirects exceeds the limit %d: the exchange must fail", len(c.Hops), c.Redirects)
+		}
+		s.Count("redirect_oracle:judged")
+		if want != o.lastSpec {
+			obs := "failed: " + r.Error
+			if o.obtained != nil {
+				obs = fmt.Sprintf("obtained a response with status %d", o.lastSpec.Status)
+			}
+			viol("redirect_policy", what, "", obs, map[string]interface{}{"limit": c.Redirects, "hops": len(c.Hops)})
+		}
+	}
 	// --- the result
 	success := func(code uint16) bool { return code >= 200 && code < 400 }
 	if o.obtained == nil {
@@ -1061,8 +1083,8 @@ func runC06(c *run.Ctx, s *kit.Summary) {
 
 	// the redirect policy on a grid: Redirects(n) (and the unset default) against h hops
 	gr := &kit.Stream{Name: "c06.hit"}
-	for _, n := range []int{-3, -2, -1, 0, 1, 2, 3, 9, 10, 11, 100, 1 << 31, -(1 << 31)} {
-		for h := 0; h <= 12; h++ {
+	for _, n := range []int{-3, -2, -1, 0, 1, 2, 3, 9, 10, 11, 12, 100, 1 << 31, -(1 << 31)} {
+		for h := 0; h <= 14; h++ {
 			for _, set := range []bool{true, false} {
 				if !set && n != 10 {
 					continue
